@@ -142,7 +142,19 @@ func (e RSA) Decrypt(key interface{}, ciphertextEl *etree.Element) ([]byte, erro
 		}
 	}
 
-	return e.keyDecrypter(e, rsaKey, ciphertext)
+	return e.unwrapKey(rsaKey, ciphertext)
+}
+
+// unwrapKey runs the key decrypter. crypto/rsa uses parts of a private key without checking
+// them (for example precomputed CRT values that have been removed from the key): report such
+// a key as an error instead of letting the panic take the caller down.
+func (e RSA) unwrapKey(key *rsa.PrivateKey, ciphertext []byte) (plaintext []byte, err error) {
+	defer func() {
+		if r := recover(); r != nil {
+			plaintext, err = nil, fmt.Errorf("cannot decrypt with the provided key: %v", r)
+		}
+	}()
+	return e.keyDecrypter(e, key, ciphertext)
 }
 
 const oaep11Algorithm = "http://www.w3.org/2009/xmlenc11#rsa-oaep"
